@@ -52,6 +52,7 @@ Lists == {<<f>> : f \in {g \in IntFields : Leq(g.lo, g.hi)} \cup OpenIntFields}
 Init == dialect \in Dialects /\ fields \in Lists /\ idx = 0 /\ columns = <<>>
 
 Keyword(d, name) == CASE name = "select" -> TRUE
+                      [] name = "order" -> TRUE
                       [] name = "comment" -> d \in {"pl", "db2"}
                       [] name = "window" -> d = "ansi"
                       [] name = "limit" -> d = "pl"
@@ -71,6 +72,14 @@ IntColumn(d, f) ==
                      ELSE IF MagFits(m, 63) THEN "bigint" ELSE "decimal"
     [] d = "db2" -> IF MagFits(m, 15) THEN "smallint" ELSE IF MagFits(m, 31) THEN "integer"
                     ELSE IF MagFits(m, 63) THEN "bigint" ELSE "decimal"
+\* decimal digits of a magnitude: 2^k + d with |d| <= 2 has as many digits as 2^k
+Digits(m) == CASE m.k = 0 -> (IF m.d < 10 THEN 1 ELSE 2) [] m.k \in {7, 8} -> 3 [] m.k \in {15, 16} -> 5
+               [] m.k \in {31, 32} -> 10 [] m.k = 63 -> 19
+\* an integer type carries no size; a decimal / number column chosen for an Integer field declares as many digits as the
+\* larger limit has (sql.py: the dialects' ladders), no fractional digits
+IntSize(d, f) == IF IntColumn(d, f) \notin {"decimal", "number"} THEN <<>>
+                 ELSE LET p == Digits(MagMax(f.lo, f.hi)) IN IF d = "db2" THEN <<p>> ELSE <<p, 0>>
+MaxPrecision(d) == IF d = "db2" THEN 31 ELSE 38
 TypeName(d, f) ==
   CASE f.t = "Integer" -> IntColumn(d, f)
     [] f.t = "Decimal" -> IF d = "pl" THEN "number" ELSE "decimal"
@@ -88,7 +97,7 @@ AddColumn ==
   /\ LET f == fields[idx + 1] IN
      columns' = Append(columns, [name |-> f.name, quoted |-> Keyword(dialect, f.name), type |-> TypeName(dialect, f),
                                  notnull |-> ~f.empty,
-                                 size |-> IF f.t = "Decimal" THEN <<TotalDigits(f), FracDigits(f)>> ELSE IF f.t \in {"Integer", "DateTime"} THEN <<>>
+                                 size |-> IF f.t = "Decimal" THEN <<TotalDigits(f), FracDigits(f)>> ELSE IF f.t = "Integer" THEN IntSize(dialect, f) ELSE IF f.t = "DateTime" THEN <<>>
                                           ELSE f.len])
   /\ idx' = idx + 1 /\ UNCHANGED <<dialect, fields>>
 Next == AddColumn
@@ -96,16 +105,19 @@ Spec == Init /\ [][Next]_vars
 
 (* ------------------------------ C19 ------------------------------ *)
 \* can a column of this type hold the value?
-Holds(d, type, v) ==
+Holds(d, type, size, v) ==
   CASE type = "tinyint" -> ~Neg(v) /\ MagFits(v, 8)
     [] type = "smallint" -> IF Neg(v) THEN MagFits([v EXCEPT !.d = @ - 1], 15) ELSE MagFits(v, 15)
     [] type \in {"int", "integer"} -> IF d \in {"ansi", "pl"} THEN TRUE           \* implementation-defined: never judged too small
                                       ELSE (IF Neg(v) THEN MagFits([v EXCEPT !.d = @ - 1], 31) ELSE MagFits(v, 31))
     [] type = "bigint" -> IF Neg(v) THEN MagFits([v EXCEPT !.d = @ - 1], 63) ELSE MagFits(v, 63)
-    [] type \in {"decimal", "number"} -> TRUE                                     \* the declared precision exceeds every limit used
+    [] type \in {"decimal", "number"} -> /\ Len(size) > 0 /\ size[1] <= MaxPrecision(d)     \* a precision the dialect has
+                                         /\ size[1] - (IF Len(size) > 1 THEN size[2] ELSE 0) >= Digits(v)
 ColumnHoldsBothLimits ==
   \A i \in 1..Len(columns) : (fields[i].t = "Integer" /\ fields[i].open = "none") =>              \* (bounded ranges)
-     Holds(dialect, columns[i].type, fields[i].lo) /\ Holds(dialect, columns[i].type, fields[i].hi)
+     /\ Holds(dialect, columns[i].type, columns[i].size, fields[i].lo)
+     /\ Holds(dialect, columns[i].type, columns[i].size, fields[i].hi)
+     /\ (columns[i].type \notin {"decimal", "number"} => columns[i].size = <<>>)
 OneColumnPerFieldInOrder == \A i \in 1..Len(columns) : columns[i].name = fields[i].name /\ columns[i].notnull = ~fields[i].empty
 TypeOK == idx \in 0..Len(fields)
 Emit == idx = Len(fields) => PrintT(<<"VEC", ToJson([dialect |-> dialect, fields |-> fields, columns |-> columns])>>)
